@@ -175,6 +175,37 @@ pub fn run(tier: Tier, seed: u64) -> i32 {
             }
         }
     });
+    // a long run of rejected reconnect attempts on one session (then an accepted one, then more): any
+    // narrow attempt counter overflows here
+    {
+        let inp = LoginInput { reg_user: "alice", reg_pass: "password123", typed_user: "alice", typed_pass: "password123", salt: salt0, b: refmodel::ctr_array::<32>(seed, "c14-lb"), a: refmodel::ctr_array::<32>(seed, "c14-la"), storage_roundtrip: false };
+        match real_login(&inp) {
+            Ok((rl, mut server, client)) => {
+                let total = tier.pick(66_000u32, 200_000u32);
+                let r = catch(|| {
+                    for i in 0..total {
+                        if server.verify_reconnection_attempt([i as u8; 16], [(i >> 8) as u8; 20]) {
+                            return Err(format!("garbage reconnect attempt #{i} accepted"));
+                        }
+                        if i % 20_011 == 20_010 {
+                            let v = client.calculate_reconnect_values(*server.reconnect_challenge_data());
+                            if !server.verify_reconnection_attempt(v.challenge_data, v.proof) {
+                                return Err(format!("honest reconnect refused after {i} rejected attempts"));
+                            }
+                        }
+                    }
+                    Ok(())
+                });
+                calls.fetch_add(total as u64, Ordering::Relaxed);
+                match r {
+                    Ok(Ok(())) => {}
+                    Ok(Err(m)) => viol(&report, "server", "long-reconnect-run", json!({"session_key": hex(&rl.k_server)}), m),
+                    Err(m) => viol(&report, "server", "reconnect-panic-after-many-attempts", json!({"attempts": total}), format!("verify_reconnection_attempt panicked during a run of {total} rejected attempts: {m}")),
+                }
+            }
+            Err(e) => viol(&report, "server", "honest-login-fails", json!({}), format!("{e:?}")),
+        }
+    }
     report.count("server_calls", calls.load(Ordering::Relaxed));
 
     // ---------------- client side (built-in group) ----------------
